@@ -279,6 +279,58 @@ def crash_class(text):
     return kind
 
 
+def minimise_crash(b, path, known, want_cls, budget_s=20, max_probes=60):
+    """ddmin over the entropy bytes of a crashing case (sanitizer aborts bypass rapidcheck's shrinking).
+    Keeps a candidate only if it still fails with the same class; rewrites `path` with the smallest one found."""
+    try:
+        text = open(path, encoding="latin-1").read()
+    except Exception:
+        return 0
+    m = re.search(r"^bytes=([0-9a-f]*)$", text, re.M)
+    if not m:
+        return 0
+    data = bytes.fromhex(m.group(1))
+    t0 = time.time()
+    probes = [0]
+    tmp = path + ".min"
+
+    def fails(cand):
+        if probes[0] >= max_probes or time.time() - t0 > budget_s:
+            return False
+        probes[0] += 1
+        # derived, human-readable lines (template=..., ops=...) are dropped: the harness recomputes from the bytes
+        head = [l for l in text.split("\n") if l.startswith("#") or re.match(r"^(width|value|cached|target|kind|vtype|word|bits)=", l)]
+        with open(tmp, "w", encoding="latin-1") as f:
+            f.write("\n".join(head) + "\nbytes=" + cand.hex() + "\n")
+        st, cls, _ = replay_case(b, tmp, known, timeout=30)
+        return st in ("fail", "crash") and cls == want_cls
+
+    n = 2
+    while len(data) >= 2 and n <= len(data):
+        chunk = max(1, len(data) // n)
+        reduced = False
+        for i in range(0, len(data), chunk):
+            cand = data[:i] + data[i + chunk:]
+            if cand and fails(cand):
+                data = cand
+                n = max(n - 1, 2)
+                reduced = True
+                break
+        if not reduced:
+            if chunk == 1:
+                break
+            n = min(n * 2, len(data))
+        if probes[0] >= max_probes or time.time() - t0 > budget_s:
+            break
+    if os.path.exists(tmp):
+        os.remove(tmp)
+    if probes[0] > 0 and len(data) < len(bytes.fromhex(m.group(1))):
+        head = [l for l in text.split("\n") if l.startswith("#") or re.match(r"^(width|value|cached|target|kind|vtype|word|bits)=", l)]
+        with open(path, "w", encoding="latin-1") as f:
+            f.write("\n".join(head) + "\n#minimised=ddmin over entropy bytes (%d probes)\nbytes=%s\n" % (probes[0], data.hex()))
+    return probes[0]
+
+
 def parse_known(prop):
     findings, fixed = [], []
     p = os.path.join(ROOT, "known_findings.txt")
@@ -505,6 +557,9 @@ def main(argv):
                 f.write(res.case_text)
             b = builds[res.run.build]
             st, cls, outp = confirm(b, dst)
+            if st == "crash":
+                minimise_crash(b, dst, known, cls)
+                st, cls, outp = confirm(b, dst)
             if st in ("fail", "crash"):
                 with open(dst + ".log", "w") as f:
                     f.write(outp)
